@@ -3,9 +3,7 @@
     and the oddness of the final clamp of Loop.TurningAngle.
     Everything is derived from Coq's FloatAxioms specification of the primitive
     operations ([Prim2SF] is injective, so Leibniz equality of [float] is bit equality). *)
-From Coq Require Import ZArith Reals List Bool Floats Lia Lra.
-From Flocq Require Import Core.Core IEEE754.BinarySingleNaN IEEE754.PrimFloat.
-From Geo Require Import Base.GoPrim Base.F64 Gen.Area Model.LoopMeasures.
+From Coq Require Import ZArith List Bool Floats Lia.
 Import ListNotations.
 
 (** * Spec-level lemmas (any precision) *)
@@ -196,12 +194,266 @@ Qed.
 
 Lemma SFnz_zq_trans x y z : SFnz x y -> SFzq y z -> SFnz x z.
 Proof.
-  intros [-> | [Zx Zy]] [<- | [Zy' Zz]]; unfold SFnz; auto.
-  - right. split; [|exact Zz]. destruct x; simpl in *; auto.
-  - right. subst. auto.
+  intros [Hy | [Zx Zy]] [Hz | [Zy' Zz]]; unfold SFnz.
+  - left. congruence.
+  - right. split; [|exact Zz]. subst y. destruct x; simpl in *; auto.
+  - right. subst z. auto.
+  - right. auto.
 Qed.
+
+Lemma SFzq_sym x y : SFzq x y -> SFzq y x.
+Proof. intros [E | [A B]]; [left; congruence | right; auto]. Qed.
 
 Lemma SFz_opp x : SFz (SFopp x) <-> SFz x.
 Proof. destruct x; simpl; tauto. Qed.
 
 End SF.
+
+From Coq Require Import Reals Lra.
+From Flocq Require Import Core.Core IEEE754.BinarySingleNaN IEEE754.PrimFloat.
+From Geo Require Import Base.GoPrim Base.F64 Gen.Area Model.LoopMeasures.
+Local Open Scope float_scope.
+Local Notation float := PrimFloat.float.
+
+(** * Transfer to primitive floats *)
+Definition fnz (a b : float) : Prop := SFnz (Prim2SF a) (Prim2SF b).
+Definition fzq (a b : float) : Prop := SFzq (Prim2SF a) (Prim2SF b).
+
+Lemma fopp_involutive x : - - x = x.
+Proof. apply Prim2SF_inj. rewrite !opp_spec. apply SFopp_invol. Qed.
+
+Lemma fadd_comm x y : x + y = y + x.
+Proof. apply Prim2SF_inj. rewrite !add_spec. apply SFadd_comm. Qed.
+
+Lemma fmul_comm x y : x * y = y * x.
+Proof. apply Prim2SF_inj. rewrite !mul_spec. apply SFmul_comm. Qed.
+
+Lemma fmul_opp_l x y : (- x) * y = - (x * y).
+Proof. apply Prim2SF_inj. rewrite opp_spec, !mul_spec, opp_spec. apply SFmul_opp_l. Qed.
+
+Lemma fmul_opp_r x y : x * (- y) = - (x * y).
+Proof. rewrite fmul_comm, fmul_opp_l, fmul_comm. reflexivity. Qed.
+
+Lemma fmul_opp_opp x y : (- x) * (- y) = x * y.
+Proof. rewrite fmul_opp_l, fmul_opp_r, fopp_involutive. reflexivity. Qed.
+
+Lemma fsub_anti x y : fnz (x - y) (y - x).
+Proof. unfold fnz. rewrite !sub_spec. apply SFsub_anti. Qed.
+
+Lemma fnz_mul_r s a a' : fnz a a' -> fnz (s * a) (s * a').
+Proof. unfold fnz. rewrite !mul_spec. apply SFmul_nz_r. Qed.
+
+Lemma fnz_sub p p' q q' : fnz p p' -> fnz q q' -> fnz (p - q) (p' - q').
+Proof. unfold fnz. rewrite !sub_spec. apply SFsub_nz. Qed.
+
+Lemma fzq_mul_nz a a' b b' : fnz a a' -> fnz b b' -> fzq (a * b) (a' * b').
+Proof. unfold fnz, fzq. rewrite !mul_spec. apply SFmul_nz_nz. Qed.
+
+Lemma fzq_add p p' q q' : fzq p p' -> fzq q q' -> fzq (p + q) (p' + q').
+Proof. unfold fzq. rewrite !add_spec. apply SFadd_zq. Qed.
+
+Lemma fzq_sub p p' q q' : fzq p p' -> fzq q q' -> fzq (p - q) (p' - q').
+Proof. unfold fzq. rewrite !sub_spec. apply SFsub_zq. Qed.
+
+Lemma fsq_zq w w0 : fzq w w0 -> w * w = w0 * w0.
+Proof. intros H. apply Prim2SF_inj. rewrite !mul_spec. apply SFsq_zq. exact H. Qed.
+
+Lemma fsq_nz w0 w' : fnz w0 w' -> w' * w' = w0 * w0.
+Proof. intros H. apply Prim2SF_inj. rewrite !mul_spec. apply SFsq_nz. exact H. Qed.
+
+Lemma fzq_sym a b : fzq a b -> fzq b a.
+Proof. apply SFzq_sym. Qed.
+
+Lemma fzq_refl a : fzq a a.
+Proof. left. reflexivity. Qed.
+
+Lemma Prim2SF_zero : Prim2SF 0 = S754_zero false.
+Proof. reflexivity. Qed.
+
+Lemma SFz_eqb0 a : SFz (Prim2SF a) -> PrimFloat.eqb a 0 = true.
+Proof. intros H. rewrite eqb_spec, Prim2SF_zero. destruct (Prim2SF a); simpl in *; tauto. Qed.
+
+(** a non-zero value is determined exactly by its class up to zero sign *)
+Lemma fzq_nonzero_eq p q : fzq p q -> PrimFloat.eqb p 0 = false -> p = q.
+Proof.
+  intros [E | [Zp _]] Hn.
+  - apply Prim2SF_inj. exact E.
+  - rewrite (SFz_eqb0 p Zp) in Hn. discriminate.
+Qed.
+
+Lemma fnz_eqb0 a b : fnz a b -> PrimFloat.eqb b 0 = PrimFloat.eqb a 0.
+Proof.
+  intros [E | [Za Zb]].
+  - rewrite !eqb_spec, E, Prim2SF_zero. destruct (Prim2SF a) as [s|s| |s m e]; try reflexivity; destruct s; reflexivity.
+  - rewrite (SFz_eqb0 a Za), (SFz_eqb0 b Zb). reflexivity.
+Qed.
+
+(** * Vectors *)
+Definition vnz (u v : r3_Vector) : Prop :=
+  fnz (r3_Vector_X u) (r3_Vector_X v) /\ fnz (r3_Vector_Y u) (r3_Vector_Y v) /\ fnz (r3_Vector_Z u) (r3_Vector_Z v).
+
+Lemma r3_add_comm u v : r3_Vector_Add u v = r3_Vector_Add v u.
+Proof. unfold r3_Vector_Add. f_equal; apply fadd_comm. Qed.
+
+Lemma r3_sub_anti u v : vnz (r3_Vector_Sub u v) (r3_Vector_Sub v u).
+Proof. unfold vnz, r3_Vector_Sub; cbn [r3_Vector_X r3_Vector_Y r3_Vector_Z]. repeat split; apply fsub_anti. Qed.
+
+Lemma r3_cross_nz_r s d d' : vnz d d' -> vnz (r3_Vector_Cross s d) (r3_Vector_Cross s d').
+Proof.
+  intros (Hx & Hy & Hz). unfold vnz, r3_Vector_Cross; cbn [r3_Vector_X r3_Vector_Y r3_Vector_Z].
+  repeat split; apply fnz_sub; apply fnz_mul_r; assumption.
+Qed.
+
+Lemma r3_dot_comm u v : r3_Vector_Dot u v = r3_Vector_Dot v u.
+Proof.
+  unfold r3_Vector_Dot.
+  rewrite (fmul_comm (r3_Vector_X u)), (fmul_comm (r3_Vector_Y u)), (fmul_comm (r3_Vector_Z u)). reflexivity.
+Qed.
+
+(** the three squared components of a cross product do not depend on the order of the
+    factors, nor on replacing both factors by their negations up to zero signs *)
+Lemma norm_cross_nz x1 x2 y1 y2 : vnz x1 x2 -> vnz y1 y2 ->
+  r3_Vector_Norm (r3_Vector_Cross x2 y2) = r3_Vector_Norm (r3_Vector_Cross y1 x1).
+Proof.
+  intros (Hx & Hy & Hz) (Kx & Ky & Kz).
+  unfold r3_Vector_Norm, r3_Vector_Dot, r3_Vector_Cross; cbn [r3_Vector_X r3_Vector_Y r3_Vector_Z].
+  assert (sq : forall a a' b b' c c' d d', fnz a a' -> fnz b b' -> fnz c c' -> fnz d d' ->
+            (a' * b' - c' * d') * (a' * b' - c' * d') = (d * c - b * a) * (d * c - b * a)).
+  { intros a a' b b' c c' d d' Ha Hb Hc Hd.
+    rewrite (fsq_zq (a' * b' - c' * d') (a * b - c * d)).
+    2:{ apply fzq_sym. apply fzq_sub; apply fzq_mul_nz; assumption. }
+    rewrite (fmul_comm d c), (fmul_comm b a).
+    symmetry. apply fsq_nz. apply fsub_anti. }
+  rewrite (sq _ _ _ _ _ _ _ _ Hy Kz Hz Ky), (sq _ _ _ _ _ _ _ _ Hz Kx Hx Kz), (sq _ _ _ _ _ _ _ _ Hx Ky Hy Kx).
+  reflexivity.
+Qed.
+
+Lemma dot_nz x1 x2 y1 y2 : vnz x1 x2 -> vnz y1 y2 ->
+  fzq (r3_Vector_Dot y1 x1) (r3_Vector_Dot x2 y2).
+Proof.
+  intros (Hx & Hy & Hz) (Kx & Ky & Kz). rewrite (r3_dot_comm y1 x1). unfold r3_Vector_Dot.
+  repeat apply fzq_add; apply fzq_mul_nz; assumption.
+Qed.
+
+Lemma sub_swap_nz (a b c d : float) : fnz (a * b - c * d) (d * c - b * a).
+Proof. rewrite (fmul_comm d c), (fmul_comm b a). apply fsub_anti. Qed.
+
+(** ** r3.Vector.Angle is symmetric, bit for bit *)
+Lemma r3_norm_cross_swap u v :
+  r3_Vector_Norm (r3_Vector_Cross v u) = r3_Vector_Norm (r3_Vector_Cross u v).
+Proof.
+  unfold r3_Vector_Norm, r3_Vector_Dot, r3_Vector_Cross; cbn [r3_Vector_X r3_Vector_Y r3_Vector_Z].
+  assert (sq : forall a b c d : float, (a * b - c * d) * (a * b - c * d) = (d * c - b * a) * (d * c - b * a)).
+  { intros a b c d. symmetry. apply fsq_nz. apply sub_swap_nz. }
+  rewrite (sq (r3_Vector_Y v)), (sq (r3_Vector_Z v)), (sq (r3_Vector_X v)). reflexivity.
+Qed.
+
+Theorem r3_angle_sym : forall u v, r3_Vector_Angle u v = r3_Vector_Angle v u.
+Proof.
+  intros u v. unfold r3_Vector_Angle.
+  rewrite (r3_norm_cross_swap v u), (r3_dot_comm u v). reflexivity.
+Qed.
+
+(** Angle(a,b,c) == Angle(c,b,a) as a float expression (point_measures.go: "Ensures that
+    Angle(a,b,c) == Angle(c,b,a) for all a,b,c") — all inputs, including NaN and non-unit. *)
+Theorem angle_sym : forall a b c, s2_Angle a b c = s2_Angle c b a.
+Proof. intros a b c. unfold s2_Angle. apply r3_angle_sym. Qed.
+
+(** ** PointCross under exchange of its arguments *)
+Definition pc_raw (p q : s2_Point) : r3_Vector :=
+  r3_Vector_Cross (r3_Vector_Add (s2_Point_Vector p) (s2_Point_Vector q))
+                  (r3_Vector_Sub (s2_Point_Vector q) (s2_Point_Vector p)).
+
+Definition zero_vec : r3_Vector := mk_r3_Vector 0 0 0.
+
+(** the Ortho fallback of PointCross is not taken *)
+Definition cross_nonzero (p q : s2_Point) : Prop := r3_Vector_eqb (pc_raw p q) zero_vec = false.
+
+Lemma pc_raw_swap p q : vnz (pc_raw p q) (pc_raw q p).
+Proof.
+  unfold pc_raw. rewrite (r3_add_comm (s2_Point_Vector q) (s2_Point_Vector p)).
+  apply r3_cross_nz_r. apply r3_sub_anti.
+Qed.
+
+Lemma vnz_eqb_zero u v : vnz u v -> r3_Vector_eqb v zero_vec = r3_Vector_eqb u zero_vec.
+Proof.
+  intros (Hx & Hy & Hz). unfold r3_Vector_eqb, zero_vec; cbn [r3_Vector_X r3_Vector_Y r3_Vector_Z].
+  rewrite (fnz_eqb0 _ _ Hx), (fnz_eqb0 _ _ Hy), (fnz_eqb0 _ _ Hz). reflexivity.
+Qed.
+
+Lemma cross_nonzero_swap p q : cross_nonzero p q -> cross_nonzero q p.
+Proof. unfold cross_nonzero. intros H. rewrite (vnz_eqb_zero _ _ (pc_raw_swap p q)). exact H. Qed.
+
+Lemma PointCross_raw p q : cross_nonzero p q -> s2_Point_Vector (s2_Point_PointCross p q) = pc_raw p q.
+Proof.
+  unfold cross_nonzero, s2_Point_PointCross. fold (pc_raw p q). fold zero_vec. intros ->. reflexivity.
+Qed.
+
+(** ** TurnAngle(c,b,a) == -TurnAngle(a,b,c) *)
+Definition dot_nonzero (a b c : s2_Point) : Prop :=
+  PrimFloat.eqb (r3_Vector_Dot (s2_Point_Vector (s2_Point_PointCross a b))
+                               (s2_Point_Vector (s2_Point_PointCross b c))) 0 = false.
+
+Lemma turn_angle_abs_reverse a b c :
+  cross_nonzero a b -> cross_nonzero b c -> dot_nonzero a b c ->
+  turn_angle_abs c b a = turn_angle_abs a b c.
+Proof.
+  intros Hab Hbc Hdot. unfold turn_angle_abs, dot_nonzero in *.
+  rewrite (PointCross_raw a b Hab), (PointCross_raw b c Hbc) in *.
+  rewrite (PointCross_raw c b (cross_nonzero_swap _ _ Hbc)), (PointCross_raw b a (cross_nonzero_swap _ _ Hab)).
+  pose proof (pc_raw_swap b c) as Hx. pose proof (pc_raw_swap a b) as Hy.
+  unfold r3_Vector_Angle.
+  rewrite (norm_cross_nz _ _ _ _ Hx Hy).
+  rewrite <- (fzq_nonzero_eq _ _ (dot_nz _ _ _ _ Hx Hy) Hdot). reflexivity.
+Qed.
+
+Section TurnAngle.
+Variable rs : sign_fn.
+
+(** Full statement with the guards it needs.  The excluded inputs are exactly
+    (i) a PointCross whose raw product is the zero vector (equal/antipodal points, or an
+        underflow), where the Ortho fallback of the two orders need not be opposite, and
+    (ii) an exactly zero dot product of the two cross products, where only the SIGN of the
+        zero may differ between the two orders and atan2(+0,+0)=0 but atan2(+0,-0)=pi.
+    Both are refuted without the guard by [turn_angle_reverse_unguarded_refuted] below
+    (points 1e-300 apart: outside the domain of property C18). *)
+Theorem turn_angle_reverse : forall a b c,
+  rs c b a = (- rs a b c)%Z -> (rs a b c = 1 \/ rs a b c = -1)%Z ->
+  cross_nonzero a b -> cross_nonzero b c -> dot_nonzero a b c ->
+  TurnAngle rs c b a = PrimFloat.opp (TurnAngle rs a b c).
+Proof.
+  intros a b c Hanti Hval Hab Hbc Hdot. unfold TurnAngle.
+  rewrite (turn_angle_abs_reverse a b c Hab Hbc Hdot), Hanti.
+  destruct Hval as [-> | ->]; simpl.
+  - reflexivity.
+  - rewrite fopp_involutive. reflexivity.
+Qed.
+End TurnAngle.
+
+Definition ex_a := mk_s2_Point (mk_r3_Vector 1 0 0).
+Definition ex_b := mk_s2_Point (mk_r3_Vector 0 1 0).
+Definition ex_c := mk_s2_Point (mk_r3_Vector (-0.5) 0.75 0.25).
+(** the premises are jointly satisfiable *)
+Example turn_angle_reverse_ex :
+  let rs : sign_fn := fun a _ _ => if s2_Point_eqb a ex_a then 1%Z else (-1)%Z in
+  rs ex_c ex_b ex_a = (- rs ex_a ex_b ex_c)%Z /\ (rs ex_a ex_b ex_c = 1 \/ rs ex_a ex_b ex_c = -1)%Z /\
+  cross_nonzero ex_a ex_b /\ cross_nonzero ex_b ex_c /\ dot_nonzero ex_a ex_b ex_c.
+Proof. vm_compute. repeat split; auto. Qed.
+
+(** Without the guards the statement is false: distinct unit points 1e-300 apart with the true
+    (antisymmetric, non-zero) orientation signs -1/+1: TurnAngle(a,b,c) = -0, TurnAngle(c,b,a) = pi.
+    Observed identically on the Go implementation. *)
+Definition uf_a := mk_s2_Point (mk_r3_Vector 1 0 0).
+Definition uf_b := mk_s2_Point (mk_r3_Vector 1 0 (0x1.56e1fc2f8f359p-997)).
+Definition uf_c := mk_s2_Point (mk_r3_Vector 1 (0x1.56e1fc2f8f359p-997) (-0x1.56e1fc2f8f359p-997)).
+Theorem turn_angle_reverse_unguarded_refuted :
+  exists (rs : sign_fn) a b c,
+    rs c b a = (- rs a b c)%Z /\ (rs a b c = 1 \/ rs a b c = -1)%Z /\
+    s2_Point_eqb a b = false /\ s2_Point_eqb b c = false /\ s2_Point_eqb a c = false /\
+    cross_nonzero a b /\ cross_nonzero b c /\
+    TurnAngle rs c b a <> PrimFloat.opp (TurnAngle rs a b c).
+Proof.
+  exists (fun p _ _ => if s2_Point_eqb p uf_a then (-1)%Z else 1%Z), uf_a, uf_b, uf_c.
+  repeat split; try (vm_compute; auto; fail).
+  intro H. apply (f_equal (fun x => PrimFloat.eqb x 0)) in H. vm_compute in H. discriminate.
+Qed.
